@@ -87,7 +87,12 @@ extern "C" void h_session() {
 #endif
         f.open(VP_FILE("a.blf"), std::ios_base::out);
         VP_ASSERT(f.is_open());
-        for (int i = 0; i < NOBJ; i++) f.write(objs[i]);
+        for (int i = 0; i < NOBJ; i++) {
+            f.write(objs[i]);
+#if defined(SLOW_PRODUCER) || defined(SCALE_THRESHOLDS)
+            vp_yield();          // a slow producer (live logging): the workers drain everything and wait in between
+#endif
+        }
         vp_sched_point("before_close");
         f.close();
         VP_ASSERT(!f.is_open());
